@@ -284,11 +284,24 @@ func cmdCheck(args []string) int {
 	if len(v.specs.Errors) > 0 {
 		return 2
 	}
-	solveAll(allQ, workDir, timeoutS, 16)
+	knownPre := loadKnown(filepath.Join(*verif, "known_findings.json"))
+	var mainQ []*Query
+	var knownQ []*Query
+	for _, q := range allQ {
+		if kf := matchKnown(knownPre, prop, q.Obl.Name); kf != nil && kf.Status == "open" {
+			knownQ = append(knownQ, q) // recorded open finding: one short attempt, no retry
+		} else {
+			mainQ = append(mainQ, q)
+		}
+	}
+	solveAll(mainQ, workDir, timeoutS, 16)
+	if len(knownQ) > 0 {
+		solveAll(knownQ, filepath.Join(workDir, "known"), 3, 8)
+	}
 	// second chance under low load and with a longer limit: a query that is slow only because sixteen
 	// solvers ran at once must not become an alarm
 	var retry []*Query
-	for _, q := range allQ {
+	for _, q := range mainQ {
 		if q.Status != "unsat" && q.Status != "trivial" {
 			retry = append(retry, q)
 		}
@@ -455,9 +468,9 @@ func cmdCheck(args []string) int {
 	// evidence
 	level := "proof"
 	expl := ""
-	if len(undecided) > 0 || len(vacuous) > 0 || total == 0 || len(missing) > 0 {
+	if len(undecided) > 0 || len(vacuous) > 0 || total == 0 || len(missing) > 0 || discharged != total {
 		level = "other"
-		expl = fmt.Sprintf("level dropped from proof: undecided=%d vacuous=%d missing_obligations=%d obligations=%d", len(undecided), len(vacuous), len(missing), total)
+		expl = fmt.Sprintf("level dropped from proof: undecided=%d vacuous=%d missing_obligations=%d obligations=%d discharged=%d (undischarged obligations are recorded known findings or reported violations)", len(undecided), len(vacuous), len(missing), total, discharged)
 	}
 	var fkeys []string
 	for _, r := range results {
